@@ -12,6 +12,24 @@ COMMON_NOTE = ("Trusted base: Lean 4.33 kernel; axioms ⊆ {propext, Classical.c
                "by exact-float inputs or bounded by a tolerance. ")
 
 CLAIMS = {
+    'C13': dict(
+        text="Theorems (Props/C13.lean, 27, none partial) for line-by-line models of _downsample_treeneuron and resample_skeleton. Downsampling, "
+             "for every well-formed correctly labelled forest, every factor incl. inf and every preserved / soma set: kept rows are original "
+             "rows; all fix points are kept; every kept node hangs below its nearest kept proper ancestor with at most `factor` dropped nodes "
+             "in between; every kept node keeps its exact number of children (roots / tips / forks unchanged); the result is a well-formed "
+             "labelled forest; the run-time checker dsCheck is sound. Resampling, for every well-formed forest and every per-segment count: "
+             "anchors keep id and coordinates; each small segment becomes a chain of fresh unique ids above max id; node-count formula; "
+             "well-formedness; every sample is a convex combination of two consecutive original nodes with the same τ for x, y, z and radius; "
+             "each new edge ≤ the arc it replaces; Σ√ ≤ cable length per segment and for the whole skeleton (real-valued); roundHalfEven is "
+             "numpy round; the remap is an argmin of squared distance. Tie: navis' downsample output is diffed exactly against the model and "
+             "judged by dsCheck; resample output is compared per segment (counts; positions against exact rational arc-length "
+             "interpolation, 1e-9) and judged by anchor / fresh-id / on-cable / cable-length / nearest-node oracles.",
+        note="Geometry theorems are over Rat and assume arc-length steps ≥ true edge lengths (exact on integer-length inputs); nearest-ancestor, gap and "
+             "branching theorems assume correct labels (navis uses its current `type` column); non-linear method= kinds, cKDTree and np.interp "
+             "are trusted / oracle-only; the round-vs-other-rounding node count is a correspondence clause. Four open findings (int32 id "
+             "wrap-around, soma id 0 dropped, list-pinned somas break subset, non-linear methods raise KeyError).",
+        technique="Lean 4 proof (nearest-kept-ancestor + gap + branching preservation; on-cable + chord ≤ arc) + exact correspondence",
+        ref="§5 C13"),
     'C11': dict(
         text="Theorems (Props/C11.lean, 20, none partial), for every well-formed forest, method, max_dist, min_size and mask: healing keeps "
              "ids and coordinates, keeps every edge, adds exactly one edge per merged fragment pair, gives a single tree when unlimited, every "
